@@ -13,19 +13,25 @@ META = {
                     "plaintext content parsing beyond framing is C03/C04"],
         "assumptions": [],
     },
-    "C03": {}, "C04": {}, "C05": {}, "C06": {}, "C07": {},
+    "C03": {}, "C04": {}, "C05": {}, "C06": {}, "C07": {"e2": True},
     "C08": {
         "exhaustive": True,
         "exhaustive_note": "exhaustive over the finite abstract domain 25 states x 21 message kinds x 2 directions x session-id presence x 256 alert severities (all symbolic); message payload contents bounded to <= 2-byte slices and <= 1-element lists",
         "outside": ["message payloads longer than 2 bytes / lists longer than 1 element (the transition function never inspects them; not proven beyond that bound)"],
         "assumptions": ["ChangeCipherSpec is not a handshake message: its direction is pinned by the oracle only where the property's flows pin it (server's final CCS, 0-RTT client CCS)"],
     },
-    "C09": {}, "C10": {}, "C11": {}, "C12": {}, "C13": {}, "C14": {}, "C15": {}, "C16": {}, "C17": {
+    "C09": {}, "C10": {}, "C11": {}, "C12": {}, "C13": {}, "C14": {}, "C15": {}, "C16": {"e2": True}, "C17": {
         "e2": True,
         "exhaustive": True,
         "exhaustive_note": "exhaustive over each code-point domain (all 256 / 65536 values of every newtype) in the bit-vector queries; the IANA table in oracle-data/registry.tsv is the trusted oracle",
         "outside": ["text of composite Debug output", "constants the crate defines that are not in oracle-data/registry.tsv are listed as constants_not_in_oracle, not judged"],
         "assumptions": ["MIR text format of the installed nightly; a function body the encoder does not fully understand is refused (reported), never partially encoded",
                         "fallback arm of the name tables is recognised syntactically (decimal + hex formatting of self.0); its exact text is decided on compiled code for TlsRecordType only"],
-    }, "C18": {},
+    }, "C18": {
+        "observations": True,
+        "outside": ["that each configuration builds with the repository's own stable toolchain (Kani compiles with its pinned nightly)",
+                    "agreement of parsers outside the re-run harness sets (C02/C03/C05/C13 quick subsets)"],
+        "assumptions": ["agreement across configurations is by transitivity through one configuration-independent oracle, within the bounds of the re-run harnesses",
+                        "compile-time facts (serialize without std refused, forbid(unsafe_code), Send + Sync) are by-products of producing the encoding, listed under non_solver_observations and not counted as solver queries"],
+    },
 }
